@@ -16,6 +16,7 @@ from ..model import AnalysisError, norm, walk_own, const_value
 from .. import q, pathrules as pr, dataflow as df
 from ..layout import World, Env, Lay, Rep, TOP, H32, tag, decode_ok
 from . import c03, c04
+from .roles import lookup_parts, nested_where, has_store_iter, AdvanceNames
 
 EXPLANATION = ('static necessary conditions of C01: byte-layout agreement between the writers of the UTXO cache / h,u,U tables and '
                'all their readers (abstract interpretation over struct widths and endianness read from lib/util.py), twin-row pairing, '
@@ -83,9 +84,8 @@ class Schemas:
         env = self.env(f)
         tables = {}
         self.table_puts = {}
-        for c in q.own_calls(f):
-            nm = q.callee_name(ctx, f, c)
-            if nm == 'batch.put' and len(c.args) == 2:
+        for c in q.batch_calls(ctx, f, 'put'):
+            if len(c.args) == 2:
                 k, v = env.ev(c.args[0]), env.ev(c.args[1])
                 if isinstance(k, Lay) and len(k) and k.atoms[0][0] == 'T' and isinstance(v, Lay):
                     tg = bytes([k.atoms[0][1]])
@@ -133,10 +133,13 @@ class Schemas:
             raise AnalysisError('History.add_unflushed: entry layout not derivable')
         self.hist_entry = e
         fl = ctx.func('hist', 'History.flush')
-        env = self.env(fl, {'hashX': self.w.HX()})
-        puts = [c for c in q.own_calls(fl) if q.callee_name(ctx, fl, c) == 'batch.put']
+        puts = q.batch_calls(ctx, fl, 'put')
         if len(puts) != 1:
             raise AnalysisError('History.flush: expected one row put')
+        lps = [p for p, _f in q.enclosing_chain(q.stmt(puts[0]), fl.node) if isinstance(p, ast.For)]
+        if not lps:
+            raise AnalysisError('History.flush: row put is not inside a loop over the unflushed script hashes')
+        env = self.env(fl, {norm(lps[0].target): self.w.HX()})
         k = env.ev(puts[0].args[0])
         if not isinstance(k, Lay):
             raise AnalysisError(f'History.flush: row key layout not derivable ({k})')
@@ -269,11 +272,12 @@ def rule_layout(ctx, sch, rule='C01.LAYOUT'):
     adv = ctx.func('bp', 'BlockProcessor.advance_block')
     txl = c03.tx_loop(ctx, adv)
     aenv = sch.env(adv, {norm(txl.target.elts[1]): H32()})
+    names = AdvanceNames(ctx, adv)
     for c in q.own_calls(adv):
-        if q.callee_name(ctx, adv, c) == 'hashXs.append' and c.args and isinstance(c.args[0], ast.Subscript):
+        if q.callee_name(ctx, adv, c) == f'{names.per_tx}.append' and c.args and isinstance(c.args[0], ast.Subscript):
             n += eq_ob(ctx, rule, adv, q.stmt(c), 'hashX of the spent value', aenv.ev(c.args[0]), HX, 'script hash recorded for a spend')
     for c in q.own_calls(adv):
-        if q.callee_name(ctx, adv, c) == 'undo_info.append':
+        if q.callee_name(ctx, adv, c) == f'{names.undo_list}.append':
             n += eq_ob(ctx, rule, adv, q.stmt(c), 'undo entry', aenv.ev(c.args[0]), sch.cache_val, 'undo entry is the spent cache value')
     # backup_block
     bak = ctx.func('bp', 'BlockProcessor.backup_block')
@@ -288,10 +292,9 @@ def rule_layout(ctx, sch, rule='C01.LAYOUT'):
         elif nm == 'self.touched.add' and c.args and isinstance(c.args[0], ast.Subscript):
             n += eq_ob(ctx, rule, bak, q.stmt(c), 'touched hashX', benv.ev(c.args[0]), HX, 'script hash touched by the backup')
     # readers in db.py
-    au = ctx.func('db', 'DB.all_utxos').nested.get('read_utxos')
-    if au is None:
-        raise AnalysisError('DB.all_utxos.read_utxos not found')
-    e = sch.env(au, {'hashX': HX})
+    auo = ctx.func('db', 'DB.all_utxos')
+    au = nested_where(auo, lambda g: has_store_iter(ctx, g, 'UTXO'), 'iterates the u rows')
+    e = sch.env(au, {auo.params[1]: HX})
     n += scan_store_reads(ctx, sch, e, au, rule)
     n += scan_decodes(ctx, sch, e, au, rule)
     n += rule_layout_lookup(ctx, sch, rule)
@@ -299,9 +302,9 @@ def rule_layout(ctx, sch, rule='C01.LAYOUT'):
     e = sch.env(ce)
     n += scan_store_reads(ctx, sch, e, ce, rule)
     n += scan_decodes(ctx, sch, e, ce, rule)
-    cu = ctx.func('db', 'DB.read_utxo_state').nested.get('count_utxos')
-    if cu is not None:
-        n += scan_store_reads(ctx, sch, sch.env(cu), cu, rule)
+    for cu in ctx.func('db', 'DB.read_utxo_state').nested.values():
+        if has_store_iter(ctx, cu, 'UTXO'):
+            n += scan_store_reads(ctx, sch, sch.env(cu), cu, rule)
     for note in sch.notes:
         ctx.note(note)
     return n
@@ -312,8 +315,7 @@ def rule_layout_lookup(ctx, sch, rule):
     n = 0
     HX = sch.w.HX()
     uk, uv = sch.s[('store', 'UTXO')][b'u']
-    lu = ctx.func('db', 'DB.lookup_utxos')
-    lh = lu.nested['lookup_hashXs'].nested['lookup_hashX']
+    lu, lh, lo, wrap_h, wrap_o = lookup_parts(ctx)
     e = sch.env(lh, {lh.params[0]: H32()})
     n += scan_store_reads(ctx, sch, e, lh, rule)
     n += scan_decodes(ctx, sch, e, lh, rule)
@@ -323,12 +325,17 @@ def rule_layout_lookup(ctx, sch, rule):
         hx, suffix = e.ev(r.value.elts[0]), e.ev(r.value.elts[1])
         n += eq_ob(ctx, rule, lh, r, 'found hashX', hx, HX, 'hashX found for a prevout')
         n += eq_ob(ctx, rule, lh, r, 'suffix', suffix, uk.slice(1 + len(HX), None), 'suffix handed to the u lookup')
-    lo = lu.nested['lookup_utxos'].nested['lookup_utxo']
-    # the pair flows unchanged: [lookup_hashX(*p) for p in prevouts] -> [lookup_utxo(*pair) for pair in pairs]
-    flows = [norm(r.value) for r in lu.nested['lookup_hashXs'].own_nodes() if isinstance(r, ast.Return)] + \
-            [norm(r.value) for r in lu.nested['lookup_utxos'].own_nodes() if isinstance(r, ast.Return)]
-    ctx.check(flows == ['[lookup_hashX(*prevout) for prevout in prevouts]', '[lookup_utxo(*hashX_pair) for hashX_pair in hashX_pairs]']
-              or (len(flows) == 2 and 'lookup_hashX(*' in flows[0] and 'lookup_utxo(*' in flows[1]), rule,
+    # the pair flows unchanged: [phase1(*p) for p in prevouts] -> [phase2(*pair) for pair in pairs]
+    def starred_map(wrapper, inner):
+        rets = [r for r in wrapper.own_nodes() if isinstance(r, ast.Return)]
+        if len(rets) != 1 or not isinstance(rets[0].value, ast.ListComp):
+            return False
+        lc = rets[0].value
+        g = lc.generators[0]
+        return len(lc.generators) == 1 and not g.ifs and isinstance(lc.elt, ast.Call) and norm(lc.elt.func) == inner.name and \
+            len(lc.elt.args) == 1 and isinstance(lc.elt.args[0], ast.Starred) and norm(lc.elt.args[0].value) == norm(g.target)
+    flows = [norm(r.value) for w in (wrap_h, wrap_o) for r in w.own_nodes() if isinstance(r, ast.Return)]
+    ctx.check(wrap_h is not lu and wrap_o is not lu and starred_map(wrap_h, lh) and starred_map(wrap_o, lo), rule,
               ctx.key(lu, None, 'pair flow'), 'the (hashX, suffix) pairs flow position by position into the value lookup',
               f'the (hashX, suffix) pairs do not flow unchanged into lookup_utxo: {flows}', loc=ctx.loc(lu, lu.node))
     n += 1
@@ -374,9 +381,9 @@ def rule_consume(ctx, sch):
     f = ctx.func('db', 'DB.flush_utxo_db')
     cfg = ctx.cfg(f)
     n = 0
-    for fld, applier in (('deletes', 'batch.delete'), ('adds', 'batch.put')):
+    for fld, applier in (('deletes', 'delete'), ('adds', 'put')):
         clears = [q.stmt(c) for c in q.own_calls(f) if norm(c.func) == f'flush_data.{fld}.clear']
-        apps = [c for c in q.own_calls(f) if q.callee_name(ctx, f, c) == applier]
+        apps = q.batch_calls(ctx, f, applier)
         loops = [s for s in f.own_nodes() if isinstance(s, ast.For) and f'flush_data.{fld}' in norm(s.iter)]
         ok = len(clears) == 1 and len(loops) == 1 and bool(apps)
         if ok:
@@ -458,7 +465,10 @@ def rule_collision(ctx, rule='C01.COLLISION'):
     # spend_utxo: a candidate is accepted without the hash check only when it is the only candidate
     f = ctx.func('bp', 'BlockProcessor.spend_utxo')
     cfg = ctx.cfg(f)
-    loops = [s for s in f.own_nodes() if isinstance(s, ast.For) and 'candidates' in norm(s.iter)]
+    cdefs = [s for s in f.own_nodes() if isinstance(s, ast.Assign) and isinstance(s.value, ast.DictComp) and isinstance(s.targets[0], ast.Name)
+             and any(isinstance(c, ast.Call) and isinstance(c.func, ast.Attribute) and c.func.attr == 'iterator' for c in ast.walk(s.value))]
+    cand = cdefs[0].targets[0].id if len(cdefs) == 1 else None
+    loops = [s for s in f.own_nodes() if isinstance(s, ast.For) and cand and cand in q.names_in(s.iter)]
     ok, why = False, 'candidate loop not found'
     if len(loops) == 1:
         lp = loops[0]
@@ -467,15 +477,14 @@ def rule_collision(ctx, rule='C01.COLLISION'):
         rets = [r for r in walk_own(lp) if isinstance(r, ast.Return)]
         if len(chk) == 1 and len(rets) == 1:
             conds = pr.control_conditions(chk[0], lp)
-            single = len(conds) == 1 and conds[0][1] and q.cmp_matches(ctx, f, conds[0][0], 'len(candidates) > 1')
+            single = len(conds) == 1 and conds[0][1] and q.cmp_matches(ctx, f, conds[0][0], f'len({cand}) > 1')
             # the compared hash comes from fs_tx_hash(tx_num of this candidate)
             other = chk[0].test.comparators[0] if norm(chk[0].test.left) == f.params[1] else chk[0].test.left
             fsd = [s for s in walk_own(lp) if isinstance(s, ast.Assign) and isinstance(s.value, ast.Call) and q.callee_name(ctx, f, s.value) == 'self.db.fs_tx_hash'
                    and isinstance(s.targets[0], ast.Tuple) and norm(s.targets[0].elts[0]) == norm(other)]
             # every path of an iteration to the return passes the check when there are several candidates
             p = pr.path_avoiding(cfg, pr.body_entries(cfg, lp), [cfg.node(rets[0])], {cfg.node(conds[0][2])} | pr.outside_loop(cfg, lp)) if conds else [0]
-            cd = [s for s in f.own_nodes() if isinstance(s, ast.Assign) and norm(s.targets[0]) == 'candidates']
-            full = len(cd) == 1 and isinstance(cd[0].value, ast.DictComp) and not cd[0].value.generators[0].ifs
+            full = len(cdefs) == 1 and not cdefs[0].value.generators[0].ifs
             ok = single and len(fsd) == 1 and p is None and full
             why = f'single-candidate exemption ok={single}, hash from fs_tx_hash ok={len(fsd) == 1}, check on every path={p is None}, all rows are candidates={full}'
     ctx.check(ok, rule, ctx.key(f, None, 'full-hash check'),
@@ -484,7 +493,7 @@ def rule_collision(ctx, rule='C01.COLLISION'):
               ' (the wrong UTXO is spent: wrong script hash in history, wrong rows deleted)', loc=ctx.loc(f, f.node))
     n += 1
     # mempool / client lookup: the prevout may not exist, so the check is unconditional
-    lh = ctx.func('db', 'DB.lookup_utxos').nested['lookup_hashXs'].nested['lookup_hashX']
+    _lu, lh, _lo, _wh, _wo = lookup_parts(ctx)
     lcfg = ctx.cfg(lh)
     loops = [s for s in lh.own_nodes() if isinstance(s, ast.For)]
     ok, why = False, 'row loop not found'
